@@ -2,7 +2,11 @@ module verifharness
 
 go 1.16
 
-require github.com/bytom/bytom v0.0.0
+require (
+	github.com/bytom/bytom v0.0.0
+	github.com/sirupsen/logrus v1.8.1
+	github.com/tendermint/tmlibs v0.9.0
+)
 
 replace (
 	github.com/bytom/bytom => /repo
